@@ -210,6 +210,15 @@ def run_one(cfg):
 
     def w_lgf(gp, current_point, function_logger, *a, **k):
         s2_before = None if gp.s2 is None else np.array(gp.s2, copy=True)
+        # "nearest to the current incumbent": the surrogate kept across the loop is re-centred on the incumbent b.u -- in the poll
+        # step always, in the search step for deterministic targets (noisy targets additionally fit a throw-away copy at the search point)
+        caller = sys._getframe(1).f_code.co_name
+        bb = st.get("b")
+        if bb is not None and (caller == "_poll_step_" or (caller == "_search_step_" and mode == "det")):
+            stats["centre_checked"] = stats.get("centre_checked", 0) + 1
+            if not np.array_equal(np.ravel(current_point), np.ravel(bb.u)):
+                bad("not-centred-on-incumbent", f"local fit in {caller} selects the training set around {np.ravel(current_point).tolist()} "
+                    f"while the incumbent is {np.ravel(bb.u).tolist()}", f"local_gp_fitting {stats['local_fit']}")
         st["last_gsn"] = None
         st["tainted"].discard(id(gp))
         res = o_lgf(gp, current_point, function_logger, *a, **k)
@@ -348,6 +357,7 @@ def run_one(cfg):
     try:
         b = BADS(fun, x0, lb, ub, plb, pub, options=options)
         st["fl"] = b.function_logger
+        st["b"] = b
         r = b.optimize()
         res = dict(func_count=int(r["func_count"]), fval=float(r["fval"]), calls=calls["n"])
     except Exception as ex:
